@@ -85,6 +85,9 @@ func RandomHistories(w *WorldJSON, seed int64, n, depth int, routers []string, f
 			if (focus == "clientauth" || focus == "code" || focus == "tokenuse") && i%40 == 2 {
 				g.credentialMatrix(emit)
 			}
+			if focus == "exchange" && i%40 == 2 {
+				g.exchangeAuthMatrix(emit)
+			}
 			if focus == "exchange" && i%25 == 5 {
 				g.thirdPartyMatrix(emit)
 			}
